@@ -133,6 +133,30 @@ class BasicBlockNode:
         except IndexError:
             return None
 
+    def try_get_instruction_with_index(self, index: int) -> tuple[int, Instr] | None:
+        """Try to get the instruction at the given index and its position in the basic block.
+
+        The index refers to the instructions of the basic block, the provided position
+        refers to the basic block itself, which may also contain pseudo-instructions
+        (TryBegin, TryEnd, SetLineno). Thus, only the position is suitable for inserting
+        instructions into the basic block.
+
+        Args:
+            index: The index of the instruction
+
+        Returns:
+            The position in the basic block and the instruction at the given index or
+            None if no such instruction exists
+        """
+        try:
+            return tuple(
+                (position, instr)
+                for position, instr in enumerate(self._basic_block)
+                if isinstance(instr, Instr)
+            )[index]
+        except IndexError:
+            return None
+
     @property
     def original_instructions(self) -> Iterable[Instr]:
         """Provides the original instructions of the basic block.
